@@ -4,6 +4,7 @@ package main
 // pre-existing lock file; and N processes released together.
 
 import (
+	"bufio"
 	"fmt"
 	"os"
 	"os/exec"
@@ -239,11 +240,140 @@ func runLock(o *opts) {
 			distinct[fmt.Sprintf("c%d-%d-%d", n, ok, refused)] = true
 		}
 	}
-	s.Cases = nMatrix + len(ccases)
+	// system-call traces of single invocations: everything dud (or a stage command, or rclone) changes
+	// in the project happens between the creation and the removal of .dud/lock
+	var tcases []string
+	{
+		type trCmd struct {
+			name  string
+			args  []string
+			desc  int
+			fails bool
+			prep  string
+		}
+		trs := []trCmd{
+			{"commit", []string{"commit", "@s.yaml", "@d.yaml"}, 0, false, "edit"},
+			{"commit-copy", []string{"commit", "--copy", "@s.yaml", "@d.yaml"}, 0, false, "edit"},
+			{"checkout", []string{"checkout", "@s.yaml", "@d.yaml"}, 0, false, "remove"},
+			{"checkout-copy", []string{"checkout", "--copy", "@s.yaml", "@d.yaml"}, 0, false, "remove"},
+			{"run", []string{"run", "@s.yaml", "@d.yaml"}, 0, false, "edit-src"},
+			{"status", []string{"status", "@s.yaml", "@d.yaml"}, 0, false, ""},
+			{"push", []string{"push", "@s.yaml", "@d.yaml"}, 0, false, ""},
+			{"fetch", []string{"fetch", "@s.yaml", "@d.yaml"}, 0, false, "wipe-cache"},
+			{"pull", []string{"pull", "@s.yaml", "@d.yaml"}, 2, false, "remove"},
+			{"pull-copy", []string{"pull", "--copy", "@s.yaml", "@d.yaml"}, 2, false, "remove"},
+			{"pull-after-wipe", []string{"pull", "@s.yaml", "@d.yaml"}, 2, false, "wipe-cache-remove"},
+			{"stage-rm", []string{"stage", "remove", "@d.yaml"}, 0, false, ""},
+			{"stage-add", []string{"stage", "add", "@d.yaml"}, 0, false, ""},
+			{"config-set", []string{"config", "set", "cache", ".dud/cache"}, 1, false, ""},
+			{"checkout-obstructed", []string{"checkout", "@d.yaml"}, 0, true, "obstruct"},
+			{"run-failing-stage", []string{"run", "@bad.yaml"}, 0, true, ""},
+			{"version", []string{"version"}, 3, false, ""},
+		}
+		for _, cwd := range []string{"", "sub/deep"} {
+			p := setup(fmt.Sprintf("t_%v", cwd != ""))
+			if res := p.dud("", "stage", "add", "bad.yaml"); res.Exit != 0 {
+				must(fmt.Errorf("setup bad: %s", res.Stderr))
+			}
+			if res := p.dud("", "push", "s.yaml", "d.yaml"); res.Exit != 0 {
+				must(fmt.Errorf("setup push: %s", res.Stderr))
+			}
+			lockPath := filepath.Join(p.Root, ".dud", "lock")
+			remote := filepath.Join(p.Base, "remote")
+			for _, c := range trs {
+				args := make([]string, len(c.args))
+				for i, a := range c.args {
+					if strings.HasPrefix(a, "@") {
+						rel, err := filepath.Rel(filepath.Join(p.Root, cwd), filepath.Join(p.Root, a[1:]))
+						must(err)
+						a = rel
+					}
+					args[i] = a
+				}
+				switch c.prep {
+				case "edit":
+					os.Remove(filepath.Join(p.Root, "data.txt"))
+					must(os.WriteFile(filepath.Join(p.Root, "data.txt"), []byte(fmt.Sprintf("edit %d\n", r.intn(1<<30))), 0o644))
+				case "edit-src":
+					must(os.WriteFile(filepath.Join(p.Root, "src.txt"), []byte(fmt.Sprintf("src %d\n", r.intn(1<<30))), 0o644))
+				case "remove", "wipe-cache-remove":
+					os.Remove(filepath.Join(p.Root, "data.txt"))
+					os.Remove(filepath.Join(p.Root, "out.txt"))
+				case "obstruct":
+					os.Remove(filepath.Join(p.Root, "data.txt"))
+					must(os.WriteFile(filepath.Join(p.Root, "data.txt"), []byte("edited by the user\n"), 0o644))
+				}
+				if strings.HasPrefix(c.prep, "wipe-cache") {
+					// everything is on the remote: make the fetch half do real work
+					p.dud("", "push", "s.yaml", "d.yaml")
+					objs, _ := snapCache(p.CacheDir)
+					for _, ob := range objs {
+						os.Remove(cachePathOf(p.CacheDir, ob.Digest))
+					}
+				}
+				logf := filepath.Join(base, "trace.log")
+				a := append([]string{"--log", logf, "--", p.Dud}, args...)
+				cmd := exec.Command(sysmonBin(), a...)
+				cmd.Dir = filepath.Join(p.Root, cwd)
+				cmd.Env = append([]string{}, p.Env...)
+				err := cmd.Run()
+				exit0 := err == nil
+				// events: 0 = .dud/lock created with O_EXCL, 1 = .dud/lock unlinked, 2 = any other
+				// mutating call below the project, its cache or the remote (runs of 2 are collapsed)
+				var ev []string
+				if f, err := os.Open(logf); err == nil {
+					sc := bufio.NewScanner(f)
+					sc.Buffer(make([]byte, 1<<20), 1<<20)
+					for sc.Scan() {
+						parts := strings.Split(sc.Text(), "\t")
+						if len(parts) < 5 {
+							continue
+						}
+						path := filepath.Clean(parts[3])
+						e := ""
+						switch {
+						case path == lockPath && parts[2] == "open" && strings.Contains(parts[4], "X"):
+							e = "0"
+						case path == lockPath && parts[2] == "unlink":
+							e = "1"
+						case path == lockPath:
+							continue // the rmdir fallback of os.Remove
+						case strings.HasPrefix(path, p.Root+"/") || strings.HasPrefix(path, p.CacheDir+"/") || strings.HasPrefix(path, remote+"/"):
+							e = "2"
+						default:
+							continue
+						}
+						if e == "2" && len(ev) > 0 && ev[len(ev)-1] == "2" {
+							continue
+						}
+						ev = append(ev, e)
+					}
+					f.Close()
+				}
+				_, lerr := os.Lstat(lockPath)
+				os.Remove(lockPath)
+				switch c.prep {
+				case "obstruct":
+					os.Remove(filepath.Join(p.Root, "data.txt"))
+					p.dud("", "checkout", "d.yaml")
+				}
+				if c.name == "fetch" || c.name == "run-failing-stage" {
+					p.dud("", "checkout", "s.yaml", "d.yaml")
+				}
+				id++
+				tcases = append(tcases, fmt.Sprintf("mkLT %d %d %s %s %s %s", id, c.desc, cbool(c.fails), cbool(exit0), cbool(lerr == nil), clist(ev)))
+				s.CaseIndex[fmt.Sprint(id)] = map[string]interface{}{"trace_of": "dud " + strings.Join(args, " "), "cwd": cwd, "exit0": exit0, "events": strings.Join(ev, "")}
+				s.count("trace:" + c.name)
+				distinct["trace"+c.name+cwd] = true
+			}
+		}
+	}
+	s.Cases = nMatrix + len(ccases) + len(tcases)
 	s.Nontrivial = len(distinct)
-	s.Rule = "matrix: every subcommand (incl. error variants) x invocation directory (root, sub/deep) x lock file pre-existing or not -> exit class and lock presence afterwards; concurrent: N in {2,8[,32]} `dud run` released together on a stage that holds an atomic-mkdir sentinel; every case is non-trivial; distinct by (subcommand, cwd, pre-lock) / (N, outcome counts)"
+	s.Rule = "matrix: every subcommand (incl. error variants) x invocation directory (root, sub/deep) x lock file pre-existing or not -> exit class and lock presence afterwards; traces: the ptrace log of single invocations of every locking subcommand (root and sub-directory) projected to lock-created / lock-removed / other-mutating-call events, compared with the model's lock effects and checked for every change happening while the lock is held; concurrent: N in {2,8[,32]} `dud run` released together on a stage that holds an atomic-mkdir sentinel; every case is non-trivial; distinct by (subcommand, cwd, pre-lock) / (N, outcome counts)"
 	s.Samples = append(s.Samples, s.CaseIndex["3"], s.CaseIndex[fmt.Sprint(id)])
 	writeShards(o.out, "lock", "From DudV Require Import Model.Lock Corr.RunLock.", "lcase", "run_lock", cases, 1000, s)
 	writeShards(o.out, "conc", "From DudV Require Import Model.Lock Corr.RunLock.", "ccase", "run_conc", ccases, 1000, s)
+	writeShards(o.out, "ltrace", "From DudV Require Import Model.Lock Corr.RunLock.", "ltcase", "run_ltrace", tcases, 1000, s)
 	s.write(o.out)
 }
